@@ -13,7 +13,7 @@ CHECKS = {
    ref="DESIGN.md section 4, C12"),
  "C07": dict(level="proof",
    text="StatefulLexer.Next, getPattern, both applyAction implementations (against the Action interface contract), Position.Advance, ConsumeAll and LexString are under contract: Next preserves the lexer invariant (state stack never empty), every index/slice expression is in bounds (no panic), every loop has a decreasing lexicographic measure (len(data), len(stack)) so each call terminates, an emitted non-EOF token is non-empty and strictly consumes input, and at end of input Next returns EOF at the same position without changing the lexer.",
-   note=TRUST + "regexp is a trusted stub (FindStringSubmatchIndex returns nil or in-range ordered index pairs, unmatched groups -1); BackrefRegex and lexer.New carry assumed contracts (New is covered by a bounded stand-in under C03); the generated lexer template is not covered.",
+   note=TRUST + "regexp is a trusted stub (FindStringSubmatchIndex returns nil or in-range ordered index pairs, unmatched groups -1); BackrefRegex carries an assumed contract; lexer.New is proved to establish the invariant Next starts from (rulesOK: every compiled pattern anchored, no include placeholder left), from one axiom about regexp syntax (a pattern that syntax.Parse accepts, wrapped as ^(?:p), can only match at the start); include.applyRules is proved against the RulesAction interface contract. The generated lexer template is not covered.",
    ref="DESIGN.md section 4, C07"),
  "C04": dict(level="proof",
    text="Position.Advance is proved to map an exact (offset,line,column) position of an input text to the exact position after the span, from eight trusted string axioms applied as ground instances; StatefulLexer.Next is proved (for every input text given as a ghost parameter) to keep data == input[offset:], to emit tokens whose value is exactly input[pos.Offset : pos.Offset+len(value)] with exact line/column and the caller's filename, contiguous with the lexer position, monotone offsets, and EOF at len(input); LexString establishes the invariant. The text/scanner-based lexer is covered by a bounded stand-in (all inputs up to 4/5 bytes over 13 bytes incl. invalid UTF-8 and NUL, four entry points).",
@@ -21,7 +21,7 @@ CHECKS = {
    ref="DESIGN.md section 4, C04"),
  "C03": dict(level="proof",
    text="Next is proved to select, in every state, the first rule in declared order that matches the whole remaining input (loop invariant + exit assertions: no earlier rule is Return or matches), to treat Return by popping exactly one state at the same offset (or to stop at the root), ActionPush/ActionPop are proved to push exactly {state, groups} / pop exactly the top and to reject empty matches; getPattern returns the compiled pattern or the back-reference expansion; NewSimple is proved to build exactly {\"Root\": rules in order}.",
-   note=TRUST + "Regexp matching itself (re_matches, re_end) is uninterpreted/trusted; BackrefRegex and New have assumed contracts here: New's include expansion and symbol table are covered by the bounded stand-in reported in the same evidence file (bounded, not proof).",
+   note=TRUST + "Regexp matching itself (re_matches, re_end) is uninterpreted/trusted; BackrefRegex has an assumed contract here. New is proved for anchoring and complete include expansion; its exact table (splice order), symbol numbering and ignore flags are covered by the bounded stand-in reported in the same evidence file (bounded, not proof).",
    ref="DESIGN.md section 4, C03"),
 }
 
